@@ -9,6 +9,28 @@ VERIF = os.path.dirname(os.path.dirname(os.path.abspath(__file__)))
 sys.path.insert(0, VERIF)
 
 ALL = ['C%02d' % i for i in range(1, 21)]
+TECHNIQUE = {
+    'C01': 'runtime monitor on bilform (event log) + offline checker: class-stratified sample against an independent reference integral',
+    'C02': 'lock-step execution against a reference model (invariant at a hook after every operation); bounded-exhaustive + random operation histories',
+    'C03': 'monitors on the real driver run through runpy (residual, solve) + oracle integrating the recorded residual closure per element',
+    'C04': 'online oracle on every recorded entry / evaluation (causality, sign) on all assembly paths; rigorous mpmath lower bound for non-positive values',
+    'C05': 'complete enumeration of the rule tables: real functions called for every key, exact moments in 60-digit arithmetic on doubles and on source literals',
+    'C06': 'monitor on refine_axis around every marking call (marked set = depth-0 requests) + exact-rational threshold oracle + reference-model post-state',
+    'C07': 'monitor on evaluate during the real estimators + hostile point generator, oracle = graded 1-D reference at two resolutions',
+    'C08': 'real linform on enumerated boundary elements against own exact potentials and an independent triple-integral reference; metamorphic relations',
+    'C09': 'per-patch values returned by the real estimator routines against closed forms / graded references; relations across list orders, worker counts, a curve symmetry',
+    'C10': 'invariant at a hook: neighbour_elements() of every edge vs the geometric rule on the actual leaves, on bounded-exhaustive + random histories',
+    'C11': 'metamorphic relation over recorded bilform values (sum over split pieces == whole)',
+    'C12': 'metamorphic relations over bilform values (exchange, exact time shift: bitwise; curve motions by transplanted bisection paths)',
+    'C13': 'eigenvalue / Cholesky oracle on matrices assembled by the real bilform_matrix and on the estimator child blocks',
+    'C14': 'real seminorm routines against exact rational closed forms for every order and degree; invariance relations; graded corner reference',
+    'C15': 'enumeration of base rules x constructors x monomials through the real integrate(); reflection and symmetry relations',
+    'C16': 'lock-step against a reference quadtree + enumeration of all dyadic boundary segments with a logical descent bound',
+    'C17': 'fault and schedule injection: worker-side trace monitor with delays for 1..16 workers, file-length faults, failing/crashing saves, crashes during assembly; bitwise oracle',
+    'C18': 'real curve evaluations against own geometry facts; piece identity and >= 3-per-slab invariants on random grids and histories',
+    'C19': 'real refine_grading under a leaf-count bound and a line-step progress monitor (logical termination bounds); post-state oracle',
+    'C20': 'real estimator calls against an independent recomputation on a replayed, really bisected copy of the mesh from single-pair calls',
+}
 PENDING_REASON = {}
 
 BASELINE = ("cd /repo && env -u STBEM_VERIF /venv/bin/python -m pytest -ra -q -p no:cacheprovider --timeout=900 "
@@ -38,8 +60,7 @@ def main():
                 'design_ref': 'DESIGN.md section 5, ' + pid,
             },
             'level_note': getattr(mod, 'LEVEL_NOTE', '; '.join(getattr(mod, 'ASSUMPTIONS', []))),
-            'technique': getattr(mod, 'TECHNIQUE', 'runtime monitoring: real functions executed under recorders, '
-                                                   'deterministic oracle over the recorded events'),
+            'technique': getattr(mod, 'TECHNIQUE', TECHNIQUE.get(pid, 'runtime monitoring')),
         }
         checks.append(c)
     man = {
